@@ -1,4 +1,5 @@
 import GcArena.Proofs.Quiet
+import GcArena.Props.C18
 /-!
 # C11 — Panic safety: a panic at any point leaves the arena consistent and usable
 
@@ -8,6 +9,14 @@ the object; the root stays flagged) — and `leave` at any point of a callback (
 panics: the prefix of its effects stays).  `inv_run` quantifies over all operation sequences, so it
 already covers every fault position in every schedule, repeated faults included; C01–C05 are
 corollaries of the same invariant and hence hold on the continued history.
+
+The builder clause ("an element constructor passed to a slice builder panics at any index … an
+abandoned builder destructs exactly the parts that were initialised") is about the builder state
+machine `GcArena.Model.Builder` (C18's model): `builder_fault_at_every_index`,
+`builder_abandoned_leaves_arena`, `repeated_builder_faults` at the end of this file; its tie to
+the code is the fault-sequence subset of the layout harness (`harness_layout --prop C11`,
+lib/eng_layout.py): repeated builder faults on one arena, each step compared with `layoutmodel`,
+the arena probed for usability after every caught unwind.
 -/
 namespace GcArena.C11
 
@@ -87,5 +96,126 @@ example : ((Arena.new 2).run demo).alive = true := by decide
 example : ((Arena.new 2).run (demo.take 6)).ctx.grayAgain = [1] := by decide
 example : ((Arena.new 2).run demo).ctx.log = [] := by decide
 example : ((Arena.new 2).run demo).ctx.phase = .sleep := by decide
+
+/-! ### The builder clause: a panicking element constructor, at every index
+
+Model: `GcArena.Model.Builder` (the state machine of C18).  `k = vs.length` elements have been
+stored when the constructor is called for index `k`; `k < n`: it panics (`ctorPanic`), `k = n`:
+the loop is over and the builder completes (`finish`). -/
+
+/-- For every slice / slice-with-header builder of every length `n`, every header and element
+    layout, every arena state and every fault index `k ≤ n` (`k = vs.length` elements stored):
+    * `k < n`, the constructor panics at index `k`: the trace is exactly one allocation, the start
+      of the unwind, the header destructor (the header `()` of a plain slice builder included),
+      the destructors of elements `0 … k-1` in order, and one deallocation with the allocated
+      layout — each initialised element destructed exactly once, no other element, the header
+      exactly once — and the arena side is untouched: same `total_gc_count`, same allocation
+      counter (hence same debt), the block is not on the `all` list and not live, no `link`;
+    * `k = n`, no fault: exactly one allocation and one `link`, the contents are the `n`
+      elements produced, the counters go up by one. -/
+theorem builder_fault_at_every_index (c : Builder.Cfg) (g a : Nat) (vs : List Nat) (p : Layout.Plan)
+    (hk : c.kind = .slice ∨ c.kind = .swh) (_hle : vs.length ≤ c.n)
+    (hp : Layout.gcAlloc c.maxSize c.hdr c.pk c.ptrMeta = some p) :
+    (vs.length < c.n →
+      Builder.run c (Builder.initial g a)
+          ((if c.kind = .swh then [.create, .writeHeader] else [.create]) ++
+            vs.map .writeElem ++ [.ctorPanic]) =
+        { stage := .dropped,
+          events := [.allocB p.alloc, .panic] ++ Builder.dropEvents vs.length ++ [.deallocB p.alloc],
+          written := vs, gcs := g, allocated := a, onAllList := false, live := false,
+          stuck := false } ∧
+      (∀ i, (Builder.dropEvents vs.length).count (.dropElem i) = (if i < vs.length then 1 else 0)) ∧
+      (Builder.dropEvents vs.length).count .dropHeader = 1 ∧ Builder.Event.link ∉ Builder.dropEvents vs.length) ∧
+    (vs.length = c.n →
+      Builder.run c (Builder.initial g a)
+          ((if c.kind = .swh then [.create, .writeHeader] else [.create]) ++
+            vs.map .writeElem ++ [.finish]) =
+        { stage := .linked, events := [.allocB p.alloc, .link], written := vs, gcs := g + 1,
+          allocated := a + 1, onAllList := true, live := true, stuck := false }) := by
+  refine ⟨fun hlt => ⟨?_, fun i => (Builder.dropEvents_count vs.length i).1,
+    (Builder.dropEvents_count vs.length 0).2.1, (Builder.dropEvents_count vs.length 0).2.2.1⟩,
+    fun heq => C18.complete_write_slice c g a vs p hk heq hp⟩
+  have hpre : ∀ rest, Builder.run c (Builder.initial g a)
+      ((if c.kind = .swh then [.create, .writeHeader] else [.create]) ++ rest) =
+      Builder.run c { stage := .headerWritten, events := [.allocB p.alloc], gcs := g, allocated := a }
+        rest := by
+    intro rest
+    rcases hk with hk | hk
+    · simp [Builder.run, Builder.step, Builder.initial, hp, hk]
+    · simp [Builder.run, Builder.step, Builder.initial, hp, hk]
+  rw [List.append_assoc, hpre, Builder.run_writeElems c hk vs [.ctorPanic] _ 0 rfl rfl (by omega)]
+  simp only [Builder.run, Nat.zero_add]
+  rw [C18.ctor_panic c _ vs.length rfl hk rfl hlt, Builder.deallocEvents_of_gcAlloc hp]
+  simp
+
+/-- Whatever the client does with a builder and wherever a fault strikes (any sequence of
+    creation, header write, element writes, a panicking constructor at any index, a copy of any
+    length, explicit drop): if no `Gc` came out, the arena side is exactly what it was — same
+    `total_gc_count`, same allocation counter / debt, block on no list, no `link` — and if the
+    builder was destroyed its trace is one allocation, possibly the start of an unwind, the
+    header destructor and the destructors of exactly the `k` elements stored so far (none at all
+    for a builder abandoned before its header was written), one deallocation of the allocated
+    layout. -/
+theorem builder_abandoned_leaves_arena (c : Builder.Cfg) (g a : Nat) (acts : List Builder.Action)
+    (h : (Builder.run c (Builder.initial g a) acts).stage ≠ .linked) :
+    (Builder.Event.link ∉ (Builder.run c (Builder.initial g a) acts).events ∧ (Builder.run c (Builder.initial g a) acts).gcs = g ∧
+      (Builder.run c (Builder.initial g a) acts).allocated = a ∧ (Builder.run c (Builder.initial g a) acts).onAllList = false ∧
+      (Builder.run c (Builder.initial g a) acts).live = false) ∧
+    ((Builder.run c (Builder.initial g a) acts).stage = .dropped →
+      ∃ (p : Layout.Plan) (pan : Bool) (init : Option Nat),
+        Layout.gcAlloc c.maxSize c.hdr c.pk c.ptrMeta = some p ∧
+        (Builder.run c (Builder.initial g a) acts).events =
+          [.allocB p.alloc] ++ (if pan then [.panic] else []) ++
+            (match init with | some k => Builder.dropEvents k | none => []) ++ [.deallocB p.alloc] ∧
+        (∀ k, init = some k → k = (Builder.run c (Builder.initial g a) acts).written.length ∧ k ≤ c.n)) :=
+  ⟨C18.abandon c g a acts h, C18.abandon_events c g a acts⟩
+
+/-- Repeated faults on one arena: after any number of builder episodes — each with any
+    configuration and any client behaviour, faults at any index included — `total_gc_count` and
+    the allocation counter have grown by exactly the number of episodes that produced a `Gc`;
+    the abandoned ones left no trace on the arena. -/
+theorem repeated_builder_faults (eps : List (Builder.Cfg × List Builder.Action)) (g a l : Nat) :
+    (Builder.runEpisodes g a l eps).1 + l = g + (Builder.runEpisodes g a l eps).2.2 ∧
+      (Builder.runEpisodes g a l eps).2.1 + l = a + (Builder.runEpisodes g a l eps).2.2 ∧
+      l ≤ (Builder.runEpisodes g a l eps).2.2 := by
+  induction eps generalizing g a l with
+  | nil => simp [Builder.runEpisodes]
+  | cons e eps ih =>
+    obtain ⟨c, acts⟩ := e
+    unfold Builder.runEpisodes
+    by_cases hl : (Builder.run c (Builder.initial g a) acts).stage = .linked
+    · obtain ⟨_, _, _, h1, h2, _⟩ := C18.complete c g a acts hl
+      rw [if_pos hl, h1, h2]
+      have := ih (g + 1) (a + 1) (l + 1)
+      omega
+    · obtain ⟨_, h1, h2, _⟩ := C18.abandon c g a acts hl
+      rw [if_neg hl, h1, h2]
+      exact ih g a l
+
+/-- In particular, any number of faulted builders in a row leaves the counters where they
+    were. -/
+theorem only_faults_change_nothing (eps : List (Builder.Cfg × List Builder.Action)) (g a : Nat)
+    (h : (Builder.runEpisodes g a 0 eps).2.2 = 0) :
+    (Builder.runEpisodes g a 0 eps).1 = g ∧ (Builder.runEpisodes g a 0 eps).2.1 = a := by
+  have := repeated_builder_faults eps g a 0
+  omega
+
+/-! ### Non-vacuity: constructor panics at index 2 of 3, then at index 0, then a completed builder,
+on one arena (64-bit target, `SliceWithHeader<u64, u64>`) -/
+
+example :
+    (Builder.run ⟨2 ^ 63 - 1, ⟨16, 8⟩, 8, .swh, ⟨8, 8⟩, ⟨8, 8⟩, 3⟩ (Builder.initial 5 2)
+      [.create, .writeHeader, .writeElem 10, .writeElem 11, .ctorPanic]).events =
+    [.allocB ⟨56, 8⟩, .panic, .dropHeader, .dropElem 0, .dropElem 1, .deallocB ⟨56, 8⟩] := by
+  decide
+
+example :
+    Builder.runEpisodes 5 2 0
+      [(⟨2 ^ 63 - 1, ⟨16, 8⟩, 8, .swh, ⟨8, 8⟩, ⟨8, 8⟩, 3⟩,
+          [.create, .writeHeader, .writeElem 10, .writeElem 11, .ctorPanic]),
+       (⟨2 ^ 63 - 1, ⟨16, 8⟩, 8, .swh, ⟨8, 8⟩, ⟨8, 8⟩, 3⟩, [.create, .writeHeader, .ctorPanic]),
+       (⟨2 ^ 63 - 1, ⟨16, 8⟩, 8, .slice, Layout.unitLayout, ⟨8, 8⟩, 2⟩,
+          [.create, .writeElem 1, .writeElem 2, .finish])] = (6, 3, 1) := by
+  decide
 
 end GcArena.C11
